@@ -54,7 +54,6 @@ harnesses! {
         let mut r = Variance::default(); r.merge(&a);
         let q = r.__verif_parts();
         vassert!(i, beq(q.0, p.0) && q.1 == p.1 && beq(q.2, p.2), "C11:merge-a-into-empty-equals-a");
-        vassert!(i, stat_eq(r.sample_variance(), a.sample_variance()) && stat_eq(l.population_variance(), a.population_variance()), "C11:statistics-unchanged");
         let q = a.__verif_parts();
         vassert!(i, beq(q.0, p.0) && q.1 == p.1 && beq(q.2, p.2), "C11:merge-leaves-argument");
         vassert!(i, a.is_empty() == (a.len() == 0) && e.is_empty(), "C11:is-empty-iff-len-zero");
@@ -204,13 +203,15 @@ harnesses! {
         let e = WeightedMeanWithError::new();
         let mut l = a.clone(); l.merge(&e);
         let mut r = WeightedMeanWithError::default(); r.merge(&a);
+        let pa = a.__verif_parts();
         for (t, left) in [(&l, true), (&r, false)] {
+            // the unweighted part must be bit-identical as a state; the weighted part as reported statistics
+            // (an all-zero-weight operand may leave a different, unobservable weighted average behind)
+            let pt = t.__verif_parts();
             let ok = stat_eq(t.weighted_mean(), a.weighted_mean())
                 && beq(t.sum_weights(), a.sum_weights())
                 && beq(t.sum_weights_sq(), a.sum_weights_sq())
-                && stat_eq(t.unweighted_mean(), a.unweighted_mean())
-                && stat_eq(t.population_variance(), a.population_variance())
-                && stat_eq(t.sample_variance(), a.sample_variance())
+                && beq((pt.2).0, (pa.2).0) && (pt.2).1 == (pa.2).1 && beq((pt.2).2, (pa.2).2)
                 && t.len() == a.len();
             if left { vassert!(i, ok, "C11:merge-empty-into-a-is-identity"); } else { vassert!(i, ok, "C11:merge-a-into-empty-equals-a"); }
         }
